@@ -194,7 +194,9 @@ CHECKS = {
               "commitment to the committed values (shorter, longer, padded vectors, another or no commitment rejected). Encoder domain: "
               "big integers that do not fit the limbs of the declared width (MC_PublicInputs!DomOK: exactly those do not survive the limb "
               "decomposition and their truncation is the encoding of another value) must be refused by AssignedBigUint::as_public_input "
-              "or at least not answered with a well-formed encoding (PubIn_Trace!EncDomOK)."),
+              "or at least not answered with a well-formed encoding (PubIn_Trace!EncDomOK). Instance columns read at non-zero rotations: "
+              "circuits of the generated family are proven and verified for real; the verifier must accept the honest vector and "
+              "no edited, rotated, shorter or longer one (PubIn_Trace!PubRotOK)."),
         design_ref="DESIGN.md 4/C08",
         note=("Not covered: verifying-key identities of the verifier gadget (exercised inside C20's verifier circuit only), the committed-scalar "
               "accumulator path, IR value types (zkir publish: under C18). Edits are sampled positions on long vectors; satisfiability judged by MockProver."),
